@@ -513,6 +513,15 @@ def monitor_c11(ctx):
               'pop(["alice", "bob", "carol"], i)', 'd = {"a": [1]}; push(d["a"], 2); d', 'remove([1, 2, 3], 2)', 'insert([1], 0, 5)', '[[1], [2]][0] | pop']:
         pays.append({'heap': '(U (M 1 (S:69 D:0:0:0:c)) (M 2 (S:69 D:0:1:0:c)))', 'cache': 'none', 'also_cached': True,
                      'calls': [['eval', t, 0, 1000, 7], ['eval', t, 1, 1000, 7], ['eval', t, 0, 1000, 7], ['parse', t], ['eval', t, 0, 1000, 7]]})
+    # the same text for a mapping that leaves a builtin name alone and for one that rebinds it (to a host function), back and forth,
+    # plain and on a caching parser: what a call site resolved to in an earlier evaluation says nothing about this one
+    for nm, t in (('len', 'len([1, 2])'), ('len', '[1, 2] | len'), ('lower', 'map(["A"], v => lower(v))'), ('lower', 'x = "Ab"; x.lower()'), ('str', '[str(5)]'),
+                  ('sum', 'f = v => sum(v); f([1, 2])'), ('list', '[1, 2]'), ('dict', '{"a": 1}'), ('__getitem__', '[5, 6][0]'), ('max', 'try_apply(v => max(v), [1, 2])')):
+        for hostfn in ('try_apply', 'apply'):
+            pays.append({'heap': f'(U (M 1 (S:69 D:0:0:0:c)) (M 2 (S:{hx(nm)} H:{hostfn})))', 'cache': 'none', 'also_cached': True,
+                         'calls': [['eval', t, 0, 1000, 7], ['eval', t, 1, 1000, 7], ['eval', t, 0, 1000, 7], ['eval', t, 1, 1000, 7], ['parse', t]]})
+            pays.append({'heap': f'(U (M 1 (S:69 D:0:0:0:c)) (M 2 (S:{hx(nm)} H:{hostfn})))', 'cache': 'none', 'also_cached': True,
+                         'calls': [['eval', t, 1, 1000, 7], ['eval', t, 0, 1000, 7], ['eval', t, 1, 1000, 7]]})
     a = _run('c11', 'c11', pays, 'histories of parse / eval / list_names (partially consumed) / host mutation on one SqParser: every call '
              'repeated on a freshly constructed SqParser with deep-copied equal arguments; result / exception class and message compared')
     b = _run('c11_repeat', 'c11_repeat', [{'define': 'f = n => n + 1 + 1 + 1 + 1 + 1 + 1 + 1 + 1 + 1 + 1', 'call': 'f(1)', 'N': 30, 'times': 9}],
